@@ -131,6 +131,9 @@ def r20_2(ctx):
             plain = True
         if n.get("k") in ("PTupleStruct",) and n.get("adt") == AST + "Expr" and n.get("variant") == "Ident":
             plain = True
+    member = [n for n in walk(dc["body"]) if (n.get("k") == "PTupleStruct" and n.get("adt") == AST + "Expr" and n.get("variant") in ("Member", "SuperProp", "OptChain", "Call"))
+              or (n.get("k") == "PStruct" and n.get("adt") in (AST + "MemberExpr", AST + "OptChainExpr"))
+              or (n.get("k") == "MethodCall" and n.get("method") in ("as_member", "as_mut_member", "as_opt_chain"))]
     reads_dc = any(field_path(strip_transparent(x)) == "self.define_component" for x in walk(dc["body"]) if x.get("k") == "Field")
     if not reads_dc:
         # the recorded context may be handed in as a parameter: then every caller must pass self.define_component there
@@ -145,7 +148,8 @@ def r20_2(ctx):
     r.ob("predicate compares the callee symbol with \"defineComponent\"", has_name, C.mloc(dc, dc), "sym == \"defineComponent\"" if has_name else "no comparison of the symbol with the constant")
     r.ob("predicate compares the callee's syntax context with the recorded import", has_ctxt and reads_dc, C.mloc(dc, dc),
          "ctxt == self.define_component" if (has_ctxt and reads_dc) else "the scope comparison is missing: any `defineComponent` in any scope matches once the import exists")
-    r.ob("callee must be a plain identifier", plain, C.mloc(dc, dc), "as_ident / Expr::Ident only" if plain else "member / other callees are not excluded")
+    r.ob("callee must be a plain identifier", plain and not member, C.mloc(dc, member[0]) if member else C.mloc(dc, dc),
+         "as_ident / Expr::Ident only" if plain and not member else ("a member / chained callee is accepted as well: `other.defineComponent(..)` of any object that shares the recorded syntax context is augmented" if member else "member / other callees are not excluded"))
     # the writer of define_component
     writers = []
     for hb in ctx.facts.hir:
@@ -215,6 +219,9 @@ def r20_2(ctx):
             pats = [pat_str(p_["pat"]) for p_ in idxw.parents(x) if p_.get("k") == "Arm"]
             pats += [pat_str(f["pat"]) for f in idxw.known_true(x) if not isinstance(f, tuple) and f.get("k") == "LetExpr"]
             spec = [p_ for p_ in pats if "ImportNamedSpecifier(" in p_ or "Named(" in p_]
+            foreign = [p_ for p_ in pats if re.search(r"Namespace\(|ImportStarAsSpecifier|Default\(|ImportDefaultSpecifier", p_)]
+            if foreign:
+                r.ob("only a named specifier records the binding", False, C.mloc(hb, x), "the context is also taken under `%s`: a namespace / default import is not the defineComponent binding, and every top-level binding shares its syntax context" % foreign[0][:80])
             if spec and not any("imported: None" in p_ for p_ in spec):
                 named_none = False
                 r.ob("every specifier form that records the binding is un-aliased", False, C.mloc(hb, x), "the context is also taken under `%s`" % spec[0][:80])
